@@ -91,9 +91,29 @@ def random_execute(case, stats):
     nodes = case["ast"]
     source = PL.render(nodes, ws=G.cycle(case["ws"]))
     check(PL.tokenize(source) == PL.tokens_of_ast(nodes), "harness:tokenizer", "tokenizer is not whitespace/comment invariant on this source")
+    after_failure = len(source) % 3 == 0
+    if after_failure:
+        failed_calls()
+    # a sibling source that differs only in the amount of whitespace INSIDE its literals is a different profile: parsed
+    # first in the same process, it must not influence what this source is parsed to
+    twin = PL.render(G.map_literals(nodes, G.respace_literal), ws=G.cycle(case["ws"])) if len(source) % 2 else source
+    if twin != source:
+        roundtrip(twin, what="whitespace twin")
     roundtrip(source)
     n = G.count_statements(nodes)
-    stats.note(case, n >= 3 and G.has_nested_block(nodes), classes=["statements_%s" % ("0-2" if n < 3 else "3-9" if n < 10 else "10+"), "variant" if any(x[0] == "block" and x[2] is not None for x in nodes) else "no_variant"])
+    stats.note(case, n >= 3 and G.has_nested_block(nodes), classes=["statements_%s" % ("0-2" if n < 3 else "3-9" if n < 10 else "10+"), "variant" if any(x[0] == "block" and x[2] is not None for x in nodes) else "no_variant", "after_failed_calls" if after_failure else "no_failure_before", "after_whitespace_twin" if twin != source else "no_twin"])
+
+
+def failed_calls():
+    """A rejected source and an unprintable profile (data transform without termination statement) right before the
+    real case: what a failed from_text() / as_text() leaves behind must not reach the next profile."""
+    from dissect.cobaltstrike import c2profile as cp
+
+    lib(cp.C2Profile.from_text, 'set sleeptime "1234";\nhttp-get { set uri "/broken"; client { metadata {', allow=(Exception,), what="from_text(truncated source)")
+    broken = lib(cp.C2Profile, what="C2Profile()")
+    lib(broken.set_option, "sleeptime", 1234, what="set_option")
+    lib(broken.set_config_block, "http_get", cp.HttpGetBlock(uri="/broken", client=cp.HttpOptionsBlock(metadata=cp.DataTransformBlock(steps=["base64"]))), what="set_config_block")
+    lib(broken.as_text, allow=(Exception,), what="as_text(unprintable profile)")
 
 
 # ------------------------------------------------------------------------------------------ live grammar walk
